@@ -9,7 +9,7 @@ occurrence") the contract is a Python definition; where it is vague (which of
 several minimal items `min` returns, what `first` returns for an empty input)
 only the robust consequence is checked.
 
-check(name, items, kind, args, kwargs, value, S) -> None | (aspect, message)
+check(name, items, kind, args, kwargs, value, S, info=None) -> None | (aspect, message)
 
   items  the elements of the filter subject in order (for dictsort: the
          (key, value) pairs; for a str subject: its characters)
@@ -95,8 +95,21 @@ def lookup1(obj, part):
     return MISSING
 
 
+def _norm_of(fold):
+    """``fold`` is False/None (case-sensitive: strings compared as they are),
+    True (the documented case-insensitive comparison: strings are compared
+    LOWER-CASED, str.lower()), or an explicit str -> str normaliser (used only
+    to name a failure / to accept the second reading of an ambiguous input)."""
+    if not fold:
+        return None
+    if fold is True:
+        return str.lower
+    return fold
+
+
 def getter(attribute, default=None, fold=False):
     parts = parts_of(attribute)
+    norm = _norm_of(fold)
 
     def get(item):
         for p in parts:
@@ -105,8 +118,8 @@ def getter(attribute, default=None, fold=False):
             # "a default value to use if an object in the list does not have
             # the given attribute"
             item = default
-        if fold and isinstance(item, str):
-            item = item.lower()
+        if norm is not None and isinstance(item, str):
+            item = norm(item)
         return item
 
     return get
@@ -117,14 +130,15 @@ def getter_continue_into_default(attribute, default=None, fold=False):
     that keeps walking the remaining path parts inside the default value
     (``default='NY'`` and path ``a.b.0`` gives ``'N'``)."""
     parts = parts_of(attribute)
+    norm = _norm_of(fold)
 
     def get(item):
         for p in parts:
             item = lookup1(item, p)
             if item is MISSING and default is not None:
                 item = default
-        if fold and isinstance(item, str):
-            item = item.lower()
+        if norm is not None and isinstance(item, str):
+            item = norm(item)
         return item
 
     return get
@@ -296,8 +310,15 @@ def c_slice(items, kind, p, got, S):
     return None
 
 
-def c_unique(items, kind, p, got, S):
-    g = getter(p["attribute"], fold=not p["case_sensitive"])
+def _fold_of(p, fold):
+    """The string normaliser in force: the documented one (lower-casing when
+    case_sensitive is false) unless a contract is re-evaluated under another
+    reading."""
+    return (not p["case_sensitive"]) if fold is None else fold
+
+
+def c_unique(items, kind, p, got, S, fold=None):
+    g = getter(p["attribute"], fold=_fold_of(p, fold))
     seen = []
     exp = []
     for x in items:
@@ -312,8 +333,8 @@ def c_unique(items, kind, p, got, S):
     return ("result", f"got {_r(got)}, first occurrences in order are {_r(exp)}")
 
 
-def c_sort(items, kind, p, got, S):
-    key = multi_getter(p["attribute"], fold=not p["case_sensitive"])
+def c_sort(items, kind, p, got, S, fold=None):
+    key = multi_getter(p["attribute"], fold=_fold_of(p, fold))
     exp = sorted(items, key=key, reverse=bool(p["reverse"]))
     if S.same(got, exp):
         return None
@@ -326,28 +347,29 @@ def c_sort(items, kind, p, got, S):
     return ("order", f"got {_r(got)}, sorted() gives {_r(exp)}")
 
 
-def c_dictsort(items, kind, p, got, S):
+def c_dictsort(items, kind, p, got, S, fold=None):
     pos = {"key": 0, "value": 1}[p["by"]]
-    fold = not p["case_sensitive"]
-    exp = sorted(items, key=lambda kv: lower(kv[pos]) if fold else kv[pos],
+    norm = _norm_of(_fold_of(p, fold))
+    exp = sorted(items,
+                 key=lambda kv: norm(kv[pos]) if norm and isinstance(kv[pos], str) else kv[pos],
                  reverse=bool(p["reverse"]))
     if S.same(got, exp):
         return None
     return ("order", f"got {_r(got)}, sorted pairs are {_r(exp)}")
 
 
-def c_groupby(items, kind, p, got, S):
-    v = _c_groupby(items, kind, p, got, S, getter)
+def c_groupby(items, kind, p, got, S, fold=None):
+    fold = _fold_of(p, fold)
+    v = _c_groupby(items, kind, p, got, S, getter, fold)
     if v is not None and p["default"] is not None and \
             any(getter(p["attribute"])(x) is MISSING for x in items):
-        if _c_groupby(items, kind, p, got, S, getter_continue_into_default) is None:
+        if _c_groupby(items, kind, p, got, S, getter_continue_into_default, fold) is None:
             return ("default:path-continues-into-default",
                     f"attribute={p['attribute']!r} default={p['default']!r}: " + v[1])
     return v
 
 
-def _c_groupby(items, kind, p, got, S, getter):
-    fold = not p["case_sensitive"]
+def _c_groupby(items, kind, p, got, S, getter, fold):
     keyf = getter(p["attribute"], default=p["default"], fold=fold)
     rawf = getter(p["attribute"], default=p["default"], fold=False)
     if not _is_seq(got):
@@ -404,10 +426,10 @@ def c_last(items, kind, p, got, S):
 
 
 def _c_extreme(pick):
-    def c(items, kind, p, got, S):
+    def c(items, kind, p, got, S, fold=None):
         if not items:
             return None
-        g = getter(p["attribute"], fold=not p["case_sensitive"])
+        g = getter(p["attribute"], fold=_fold_of(p, fold))
         if not any(got is x for x in items) and not any(S.same(got, x) for x in items):
             return ("member", f"{_r(got)} is not an item of the input")
         best = pick(g(x) for x in items)
@@ -509,11 +531,118 @@ NEEDS_REVERSIBLE = {"last"}
 ALL_FILTERS = sorted(set(CONTRACTS) | {"map", "select", "reject", "selectattr", "rejectattr"})
 
 
-def check(name, items, kind, args, kwargs, got, S):
-    """None if the result satisfies the documented contract of ``name``."""
+# ------------------------------------------------------------ case folding
+# The six comparison filters share one documented notion of "case insensitive"
+# (case_sensitive=False, the default): "sort the dict by key, case insensitive"
+# (dictsort), "When sorting strings, sort upper and lower case separately"
+# (sort, case_sensitive=True), "Treat upper and lower case strings as
+# distinct" (unique/min/max, case_sensitive=True), "the key for each group will
+# have the case of the first item" / "the lowercase key" (groupby), and the
+# shared key post-processor ignore_case: "Converts strings to lowercase and
+# returns other types as-is".  The contract therefore compares str.lower() of
+# the keys.  Characters with special case mappings (sharp s, ligatures, long s,
+# final sigma, dotless i, micro sign ...) make str.lower() differ from other
+# caseless forms (str.casefold(), upper-then-lower), so they tell a change of
+# the normalisation function apart.
+#
+# Two readings stay open only for a pair of keys that differ under lower() and
+# are nevertheless case variants of each other in the everyday sense ('ß' and
+# 'SS', 'ς' and 'Σ', 'ſ' and 'S': one is the upper-casing of the other).  An
+# input containing such a pair is AMBIGUOUS: a result is accepted if it is what
+# lower() or what one of the ALT caseless forms gives.  Every other input is
+# STRICT, in particular: two strings that are both entirely lower-case (or both
+# upper-case) and differ ('ß' / 'ss', 'ﬁ' / 'fi', 'µ' / 'μ') do not differ in
+# case at all, so ignoring case can neither merge nor reorder them - on an
+# all-lower-case input case_sensitive=False must behave like plain Python
+# comparison.
+FOLDING = {"unique", "sort", "groupby", "min", "max", "dictsort"}
+ALT = (("casefold", str.casefold), ("upper-then-lower", lambda s: s.upper().lower()))
+
+
+def is_special(s):
+    """A string on which the caseless forms disagree with str.lower()."""
+    lo = s.lower()
+    return s.casefold() != lo or s.upper().lower() != lo
+
+
+def string_keys(name, items, p):
+    """The distinct str keys (before any case normalisation) the filter
+    compares, in order of first appearance."""
+    if name == "dictsort":
+        pos = {"key": 0, "value": 1}[p["by"]]
+        vals = [kv[pos] for kv in items]
+    elif name == "sort":
+        mg = multi_getter(p["attribute"])
+        vals = [k for x in items for k in mg(x)]
+    elif name == "groupby":
+        g = getter(p["attribute"], default=p["default"])
+        vals = [g(x) for x in items]
+    else:
+        g = getter(p["attribute"])
+        vals = [g(x) for x in items]
+    out = []
+    seen = set()
+    for v in vals:
+        if isinstance(v, str) and v not in seen:
+            seen.add(v)
+            out.append(v)
+    return out
+
+
+def fold_profile(keys):
+    """special: some key has a special case mapping; ambiguous: some pair of
+    keys differs under lower() yet is a case variant pair (see above);
+    discriminating: lower() and an ALT form identify or order some pair of
+    keys differently (the input can tell the normalisers apart)."""
+    prof = {"special": False, "ambiguous": False, "discriminating": False}
+    if not any(is_special(k) for k in keys):
+        return prof
+    prof["special"] = True
+    lo = [k.lower() for k in keys]
+    up = [k.upper() for k in keys]
+    alts = [[f(k) for k in keys] for _, f in ALT]
+    n = len(keys)
+    for i in range(n):
+        for j in range(i + 1, n):
+            for a in alts:
+                if (lo[i] == lo[j]) != (a[i] == a[j]) or (lo[i] < lo[j]) != (a[i] < a[j]):
+                    prof["discriminating"] = True
+            if lo[i] == lo[j]:
+                continue
+            if up[i] != up[j] and all(a[i] != a[j] for a in alts):
+                continue
+            both_lower = keys[i] == lo[i] and keys[j] == lo[j]
+            both_upper = keys[i] == up[i] and keys[j] == up[j]
+            if not (both_lower or both_upper):
+                prof["ambiguous"] = True
+    return prof
+
+
+def check(name, items, kind, args, kwargs, got, S, info=None):
+    """None if the result satisfies the documented contract of ``name``.
+    ``info`` (a dict) receives the case-folding profile of the input for the
+    six comparison filters."""
     if name == "map":
         return c_map(items, kind, args, kwargs, got, S)
     if name in ("select", "reject", "selectattr", "rejectattr"):
         return c_select(name, items, kind, args, kwargs, got, S)
     p = bind(name, args, kwargs)
-    return CONTRACTS[name](items, kind, p, got, S)
+    contract = CONTRACTS[name]
+    v = contract(items, kind, p, got, S)
+    if name not in FOLDING:
+        return v
+    prof = fold_profile(string_keys(name, items, p))
+    if info is not None:
+        info.update(prof)
+        info["case_sensitive"] = bool(p["case_sensitive"])
+    if v is None or p["case_sensitive"] or not prof["special"]:
+        return v
+    for altname, alt in ALT:
+        if contract(items, kind, p, got, S, fold=alt) is None:
+            if prof["ambiguous"]:
+                return None     # the second reading of an ambiguous input
+            return (f"case-insensitive:keys-compared-by-{altname}-not-lower-cased",
+                    v[1] + f" - the result is what comparing the {altname} form of the keys gives; "
+                           f"documented: case insensitive = strings converted to lowercase, and "
+                           f"no two of the differing keys are case variants of each other")
+    return v
